@@ -114,7 +114,7 @@ theorem cmd_dead (c : Conn) (v : Verb) (line : Bytes) (n : Nat) (h : ¬ live c) 
     obtain ⟨st, sf, sg, ss⟩ := logS2C_facts ((c.logC2S line).serverTurn v n).1 ((c.logC2S line).serverTurn v n).2
     cases hg : c.srvGone with
     | true =>
-      have e1 : (c.logC2S line).serverTurn v n = (c.logC2S line, .error .eof) := by
+      have e1 : (c.logC2S line).serverTurn v n = (c.logC2S line, .error ((c.logC2S line).broken.getD .eof)) := by
         unfold Conn.serverTurn; simp [lg, hg]
       rw [e1] at st sf sg ss ⊢
       refine ⟨by rw [st, lt], lf.trans sf, ?_, _, rfl⟩
